@@ -22,6 +22,7 @@ type env struct {
 	typesOnly  bool
 	depth      int
 	iterEnv    *env
+	entryEnv   *env            // the state and loop-carried values on entry to the loop whose clause is being translated
 	pointBlock *ssa.BasicBlock // program point for resolving local variable names (nil: no locals)
 	pointIdx   int
 }
@@ -111,6 +112,36 @@ func (e *env) localByName(name string) *sym {
 	}
 	if best == nil {
 		return nil
+	}
+	if _, isConst := best.X.(*ssa.Const); isConst && !best.IsAddr {
+		// go/ssa reports the zero value at the declaration of `x := <expr>` when the variable is lifted; if every
+		// other mention of the same variable denotes one single SSA value whose definition dominates the point,
+		// the variable was never reassigned and that value is what the name means here
+		var only ssa.Value
+		multi := false
+		for _, b := range top.fn.Blocks {
+			for _, in := range b.Instrs {
+				d, ok := in.(*ssa.DebugRef)
+				if !ok || d.Object() != best.Object() || d.IsAddr {
+					continue
+				}
+				if _, c := d.X.(*ssa.Const); c {
+					continue
+				}
+				if only != nil && only != d.X {
+					multi = true
+				}
+				only = d.X
+			}
+		}
+		if only != nil && !multi {
+			if in, isInstr := only.(ssa.Instruction); isInstr {
+				db := in.Block()
+				if _, have := top.vals[only]; have && (db == e.pointBlock || db.Dominates(e.pointBlock)) {
+					return top.vals[only]
+				}
+			}
+		}
 	}
 	v := top.val(best.X)
 	if best.IsAddr {
@@ -323,6 +354,11 @@ func (e *env) value(x Expr) *sym {
 		n.cur = e.old
 		s := n.rvalue(x.X)
 		return s
+	case *EEntry:
+		if e.entryEnv == nil {
+			e.errf("entry() is only available in loop invariants and step clauses: %s", x)
+		}
+		return e.entryEnv.rvalue(x.X)
 	case *EIter:
 		if e.iterEnv == nil {
 			e.errf("iter() is only available in loop step clauses: %s", x)
@@ -421,6 +457,14 @@ func (e *env) value(x Expr) *sym {
 					n.iterEnv = e.iterEnv.clone()
 				}
 				n.iterEnv.vars[b.Name] = n.vars[b.Name]
+			}
+			if e.entryEnv == e {
+				n.entryEnv = n
+			} else if n.entryEnv != nil {
+				if n.entryEnv == e.entryEnv {
+					n.entryEnv = e.entryEnv.clone()
+				}
+				n.entryEnv.vars[b.Name] = n.vars[b.Name]
 			}
 			binders = append(binders, "("+name+" "+so.sortOf(ty)+")")
 		}
@@ -620,6 +664,16 @@ func (e *env) call(x *ECall) *sym {
 		}
 		_, okc := e.f.mapLookup(e.cur, mt, m.t, k.t)
 		return &sym{t: okc, typ: tBool}
+	case "inslice":
+		// inslice(s, lo, k): k occurs in s at an index >= lo
+		s, lo, k := arg(0), arg(1), arg(2)
+		sl, ok := s.typ.Underlying().(*types.Slice)
+		if !ok {
+			e.errf("inslice: not a slice: %s", x.Args[0])
+		}
+		fn := vc.memFn(sl.Elem())
+		content := fmt.Sprintf("(select %s (sbase %s))", vc.hget(e.cur, vc.elemKey(sl.Elem())), s.t)
+		return &sym{t: fmt.Sprintf("(%s %s (soff %s) (slen %s) %s %s)", fn, content, s.t, s.t, lo.t, k.t), typ: tBool}
 	case "hasPrefix":
 		return &sym{t: "(str.prefixof " + arg(1).t + " " + arg(0).t + ")", typ: tBool}
 	case "hasSuffix":
@@ -882,6 +936,8 @@ func mentions(x Expr, name string) bool {
 	case *EOld:
 		return mentions(x.X, name)
 	case *EIter:
+		return mentions(x.X, name)
+	case *EEntry:
 		return mentions(x.X, name)
 	case *EQuant:
 		return mentions(x.Body, name)
@@ -1155,4 +1211,18 @@ func (vc *FnVC) ufuncApp(name string, terms ...string) (string, bool) {
 		vc.axiomsFor(d.Name)
 	}
 	return "(" + fn + " " + strings.Join(terms, " ") + ")", true
+}
+
+// memFn declares (once per element sort) the membership predicate behind the spec builtin inslice(s, lo, k):
+// mem(c, off, len, lo, k) <=> k occurs in the slice with contents c, offset off and length len at an index >= lo.
+func (vc *FnVC) memFn(elem types.Type) string {
+	es := vc.w.so.sortOf(elem)
+	fn := "mem_" + mangle(es)
+	if !vc.declared[fn] {
+		vc.declared[fn] = true
+		// uninterpreted with its one-step unfolding as a triggered axiom (define-fun-rec made the solvers time out)
+		vc.emit(fmt.Sprintf("(declare-fun %s ((Array Int %s) Int Int Int %s) Bool)", fn, es, es))
+		vc.emit(fmt.Sprintf("(assert (forall ((c (Array Int %s)) (off Int) (len Int) (lo Int) (k %s)) (! (= (%s c off len lo k) (and (<= 0 lo) (< lo len) (or (= (select c (+ off lo)) k) (%s c off len (+ lo 1) k)))) :pattern ((%s c off len lo k)))))", es, es, fn, fn, fn))
+	}
+	return fn
 }
